@@ -24,6 +24,14 @@ SPEC = dict(
          '(a-priori rounding bound <= 3.5 eps). REAL regime (|values| <= 1e6): output within [outmin,outmax], all state finite, integrator '
          'never moves further beyond a clamp it has reached, overshoots by at most one increment |ki*err|, moves by exactly ki*err when it '
          'moves, untouched by run/inc; limits/gains/configuration untouched; err/fdb/var (single roundings) bitwise. '
+         'RECONFIGURATION: in every fourth block of 20 cases, seven cases (1 plain exact, 1 plain real, 2 fuzzy exact, 1 fuzzy real, 2 neuron) are reconfiguration-dense histories of 4..160 steps: '
+         'about every 6th step is preceded by one reconfiguration through a documented route and the controller is zeroed about every 25 steps, each step being judged by the same oracles with the '
+         'configuration in force at that step. fuzzy: a_pid_fuzzy_set_rule with another order (1..7) and membership tables or the same tables, every NULL pattern of (mkp, mki, mkd) (8 patterns, each required), '
+         'a new exact-size scratch block through a_pid_fuzzy_set_bfuzz (always when the new tables need more, else half of the time; replaced tables and blocks are freed at once); a_pid_fuzzy_set_kpid; writes to the '
+         'public base fields kp/ki/kd; a_pid_fuzzy_set_opr; a_pid_set_kpid on / writes to the gains of the embedded plain controller (the next fuzzy step recomputes base + offset); writes to the limit fields; '
+         'the effective gain of a gain whose table is NULL equals the base gain in force bitwise after every step (all fuzzy histories). plain: a_pid_set_kpid, writes to kp/ki/kd, to the output and/or integrator limit pair. '
+         'neuron: a_pid_neuro_set_kpid, a_pid_neuro_set_wpid, writes to k / wp / wi / wd / the learning constants, output limits. Setters store their arguments and leave state, limits and the other '
+         'configuration untouched; the zero-vs-fresh twin is created with the configuration in force and receives every later reconfiguration through the setters. '
          'distinct_nontrivial counts distinct (controller, entry point run/pos/inc, fuzzy operator, rule-base order, set of limits active after '
          'the step: out=outmax, out=outmin, sum>=summax, sum<=summin) combinations in which at least one step was judged - NOT the number of '
          'steps (evaluations).',
@@ -45,7 +53,19 @@ SPEC = dict(
              'neuro-twin-weights-bitwise', 'seen-output-at-outmax', 'seen-output-at-outmin', 'seen-integrator-at-or-beyond-summax',
              'seen-integrator-at-or-beyond-summin', 'seen-integration-suspended', 'seen-integrator-pulled-back-from-clamp',
              'fuzzy-singleton-histories', 'fuzzy-singleton-input-on-centre', 'fuzzy-singleton-on-centre-eq-twin-without-the-set', 'fuzzy-singleton-zero-mid-history',
-             'seen-fuzzy-singleton-e-and-ec-on-centre'],
+             'seen-fuzzy-singleton-e-and-ec-on-centre',
+             # reconfiguration between steps (added for seeded change C12-J: an effective gain that became state carried between calls)
+             'fuzzy-rule-base-swapped-mid-history', 'fuzzy-rule-base-order-changed-mid-history', 'fuzzy-scratch-block-replaced-mid-history', 'fuzzy-rule-swap-drops-a-tuned-table',
+             'fuzzy-swapped-to-tables/---', 'fuzzy-swapped-to-tables/p--', 'fuzzy-swapped-to-tables/-i-', 'fuzzy-swapped-to-tables/pi-', 'fuzzy-swapped-to-tables/--d',
+             'fuzzy-swapped-to-tables/p-d', 'fuzzy-swapped-to-tables/-id', 'fuzzy-swapped-to-tables/pid',
+             'fuzzy-null-table-gain-equals-base', 'fuzzy-set-kpid-mid-history', 'fuzzy-base-field-written-between-steps', 'fuzzy-set-opr-mid-history',
+             'fuzzy-embedded-pid-gains-scribbled-between-steps', 'fuzzy-limit-field-written-between-steps', 'fuzzy-setter-stores-its-arguments', 'fuzzy-zero-after-reconfiguration',
+             'zero-then-suffix-eq-fresh-after-reconfiguration', 'reconfiguration-leaves-state-untouched', 'steps-judged-after-reconfiguration',
+             'pid-set-kpid-mid-history', 'pid-gain-field-written-between-steps', 'pid-limit-field-written-between-steps', 'configuration-fields-hold-what-was-written',
+             'neuro-set-kpid-mid-history', 'neuro-set-wpid-mid-history', 'neuro-field-written-between-steps', 'neuro-limit-field-written-between-steps',
+             'neuro-setter-stores-arguments-keeps-the-rest',
+             'w-fuzzy-rule-base-swapped-mid-history', 'w-fuzzy-rule-swap-drops-a-tuned-table', 'w-fuzzy-null-table-gain-equals-base', 'w-fuzzy-base-gain-changed-mid-history',
+             'w-fuzzy-embedded-pid-gains-scribbled'],
     cov_files=['pid.c', 'pid_fuzzy.c', 'pid_neuro.c'],
     cov_cases=400, cov_funcs=r'^a_pid_',
     workers={'quick': 24, 'thorough': 48},  # three configurations run side by side: 8 / 16 workers each (the two companions finish within seconds)
@@ -57,7 +77,8 @@ SPEC = dict(
         'exact whenever the result is representable; == is used instead of a bit comparison so that the sign of a zero (which the equations '
         'do not determine) is not judged',
         'float and long double builds (configs f32: A_SIZE_REAL=4, SSE single; f80: A_SIZE_REAL=16, x87 extended) run the compact type-generic companion h_pid_w.c: '
-        'histories of 1..96 steps with run/pos/inc switches, zero and re-tuning in mid-history; integer inputs with gains k/16 (every partial sum a multiple of 2^-4 below 2^20, '
+        'histories of 1..96 steps with run/pos/inc switches, zero and re-tuning in mid-history (a third of the fuzzy histories are reconfigured about every 6th step: a_pid_fuzzy_set_rule with another NULL pattern of '
+        'freshly allocated consequent tables, a_pid_fuzzy_set_kpid / writes to the base fields, writes to the gains of the embedded a_pid; untuned gain == base in force); integer inputs with gains k/16 (every partial sum a multiple of 2^-4 below 2^20, '
         'exact in any type with >= 24 bits) compared with == against a __float128 running reference (plain PID, pos == inc == closed form while no limit is active, and the fuzzy '
         'controller on integer-centred triangles where exactly one rule fires with weight 1, i.e. gains == base + consequent[e set][ec set]); half of the plain-PID histories are scaled as a '
         'whole (inputs and finite limits) by 2^-60, 2^-30, 2^-12, 2^30 or 2^40, which keeps them exact and exposes absolute thresholds tuned for one width; inputs that use the full mantissa of the '
@@ -84,6 +105,11 @@ SPEC = dict(
         'judged for range only',
         'a_*_zero "behaves as freshly initialised": compared against a second controller object created from garbage-filled memory with the '
         'same gains/limits/tables (neuron: the weights the zeroed controller holds at that moment) and a_*_init',
+        'reconfiguration between steps is part of "every history ... any gains and limits": the headers give setters (a_pid_set_kpid, a_pid_fuzzy_set_rule/set_kpid/set_opr/set_bfuzz, a_pid_neuro_set_kpid/set_wpid) '
+        'without restricting them to the time before the first step, and document the configuration as public fields (a_pid has no limit setter; test/pid_fuzzy.h writes limits, tables, order and operator through the fields). '
+        'The documented equations are read with the configuration in force at the step: fuzzy effective gain = base constant (field kp/ki/kd of a_pid_fuzzy, "base ... constant") + mean-of-centres offset of the rule table in force, '
+        'offset 0 for a gain whose table pointer is NULL; the gains of the embedded a_pid are the place where a fuzzy step stores base + offset, so their previous content (including a direct a_pid_set_kpid on the embedded controller) '
+        'does not influence a fuzzy step. Within a reconfigured history the quantifier is kept: base ki + every ki consequent in force >= 0, lower <= upper limits, summin <= 0 <= summax',
     ],
     level_text='The property quantifies over every history; it is decided here by executing the real a_pid / a_pid_fuzzy / a_pid_neuro code on '
                'many histories and judging every step. Where the arithmetic can be made exact (integer inputs, dyadic gains, dyadic '
@@ -92,11 +118,15 @@ SPEC = dict(
                'impossible the documented equation is evaluated in __float128 on the controller\'s own previous state with an a-priori '
                'rounding bound. Range, finiteness and integrator-clamp clauses are judged on arbitrary real data as well. The fuzzy '
                'scratch buffer contract is watched by ASan on an exact-size block. Exploration: histories, gains and tables are sampled; '
-               'operator x order combinations are enumerated.',
+               'operator x order combinations are enumerated. Configuration is not only established once: a share of the histories is '
+               'reconfigured between steps through every setter and public configuration field (rule base, NULL pattern of the consequent tables, scratch block, base gains, operator, '
+               'limits, neuron weights and coefficients), so that an effective gain or any other derived quantity that survives from an earlier configuration shows against the reference '
+               'evaluated with the configuration in force.',
     level_note='trusted: libquadmath/gcc __float128 arithmetic and the harness reference recurrences; histories are at most 2000 steps; '
                'fuzzy gain values in the real regime are judged by C13, not here; overruns that stay inside the scratch allocation are visible '
                'only through a wrong gain; the float and long double builds (A_SIZE_REAL=4 / 16) execute the compact companion h_pid_w.c only (histories <= 96 steps, triangular membership tables, '
                'neuron judged by the one-step oracle), not the full history/table/operator plan of h_pid.c; the C++ wrappers are not executed',
     technique='exact-arithmetic reference recurrence (bitwise) + one-step binary128 oracle + range/clamp monitors + zero-vs-fresh twin '
-              'controllers, exact-size scratch buffer under ASan+UBSan; float / long double companion; C++ member vs C function twin execution',
+              'controllers, exact-size scratch buffer under ASan+UBSan; reconfiguration-dense histories (every setter and public configuration field between steps, '
+              'rule bases / scratch blocks swapped and freed in mid-history) judged with the configuration in force; float / long double companion; C++ member vs C function twin execution',
 )
